@@ -11,7 +11,7 @@ import time
 
 ROOT = os.path.dirname(os.path.dirname(os.path.abspath(__file__)))
 sys.path.insert(0, os.path.join(ROOT, "kani"))
-CACHE = os.path.join(ROOT, ".cache", "native")
+CACHE = os.path.join(os.environ.get("VERIF_WORK", ROOT), ".cache", "native")
 REPO = os.environ.get("VERIF_REPO", "/repo")
 ENV = dict(os.environ, CARGO_NET_OFFLINE="true")
 
